@@ -50,6 +50,9 @@ func NewLink() *Link { return &Link{EOFAt: -1, FailRead: -1, FailWrite: -1} }
 func (l *Link) Write(p []byte) (int, error) {
 	i := l.WriteCalls
 	l.WriteCalls++
+	if l.FailWrite >= 0 && i > l.FailWrite {
+		return 0, ErrInjected // a failed transport stays failed
+	}
 	if i == l.FailWrite {
 		n := l.Partial
 		if n > len(p) {
@@ -75,6 +78,9 @@ func (l *Link) Read(p []byte) (int, error) {
 	n := len(p)
 	if n > avail {
 		n = avail
+	}
+	if l.FailRead >= 0 && i > l.FailRead {
+		return 0, ErrInjected // a failed transport stays failed
 	}
 	if i == l.FailRead {
 		if n > l.Partial {
